@@ -107,6 +107,8 @@ func c19Cases() []c19Case {
 	indent := []int{2, 6}[zzverif.Choice("indent", 2)]
 	return []c19Case{
 		{"limits", "maxIncludeDepth", float64(depth), func(f *c19Fx) {
+			// twice: the limit also governs an analysis that finds the included files in the cache
+			_ = f.diagnostics()
 			ds := f.diagnostics()
 			zzverif.Assert(c19HasMsg(ds, "include depth limit exceeded") == (depth <= 3), "C19: limits.maxIncludeDepth does not govern include loading")
 		}},
